@@ -1,5 +1,6 @@
 """C02 — Result-row shape matches what the embedded SQL returns."""
 from cq import *
+import re
 
 PROP = "C02"
 KNOWN = {1: "derived_table_columns_leak", 2: "update_from_returning_order", 3: "cte_alias_shared", 5: "star_over_unnamed_cte_column", 6: "star_over_qualified_cast_column", 7: "star_over_duplicate_column_names"}
@@ -51,6 +52,19 @@ def go_handle_c02(rep, c, r, v, replay):
         rep.violation("correspondence corr:C02:struct_tags broken: the db tags of the returned struct differ from the columnsToStruct model (Model/GoStruct.v)", replay, no_input=True)
 
 
+def gen_with_comments(rng):
+    """as gen_case; every fifth statement carries block comments inside its result / RETURNING list, two on one line with the
+    second closing the line: what the embedded SQL returns must still be what the method scans"""
+    c = gen_case(rng)
+    if rng.random() < 0.2:
+        head, sep, body = c["queries"].partition("\n")
+        m = re.search(r"(SELECT|RETURNING) ([^,]+), ([^,]+?)( FROM |;|$)", body)
+        if m and "'" not in m.group(0) and "(" not in m.group(2) + m.group(3):
+            body = body[:m.start()] + "%s %s /* surrogate key */, %s /* display name */\n%s" % (m.group(1), m.group(2), m.group(3), m.group(4).lstrip()) + body[m.end():]
+            c = dict(c, queries=head + sep + body, style=c.get("style", "") + "+comments")
+    return c
+
+
 def run(tier, seed):
     return run_query_property(
         PROP, "judge_c02", "From Verif Require Import Judge.J02.", KNOWN,
@@ -58,4 +72,4 @@ def run(tier, seed):
         assumptions=["Spec/PgScope.pg_describe stands in for PostgreSQL's row description (no server in the sandbox)",
                      "the parser is not modelled: source statement and embedded SQL are parsed by the real parser"],
         tier=tier, seed=seed, what="result columns differ in number or name from the row the statement returns",
-        extra_args=sql_ast_arg, with_generate=True, second=(go_ret_expr, go_handle_c02))
+        extra_args=sql_ast_arg, with_generate=True, second=(go_ret_expr, go_handle_c02), gen=gen_with_comments)
